@@ -3,12 +3,13 @@
 //   mode = V            value only
 //          D:<i>        value, differentiate(i)->getValue(), central finite difference of getValue in variable i
 //          DD:<i>:<j>   value, differentiate(i)->differentiate(j)->getValue()
-// Every case runs in a forked child so that a crash of the real code is observed and the run goes on.
+// Cases run in forked children (batches) so that a crash of the real code is observed, attributed to its case, and the run goes on.
 // Output: R id fstat fval dstat dval fd      stat in {OK, UNIMPL, EXC, CRASH}
 #include <cstdio>
 #include <cstdlib>
 #include <cstring>
 #include <cmath>
+#include <algorithm>
 #include <iostream>
 #include <sstream>
 #include <string>
@@ -91,45 +92,71 @@ static std::string run_case(const std::string& formula, const std::string& mode,
 }
 
 int main() {
+  // all cases are read first; children process batches and stream one result line per finished case, so that a
+  // crash is attributed to the case that was running and the remaining cases of the batch are re-run
+  std::vector<std::vector<std::string>> cases;
   std::string line;
   while (std::getline(std::cin, line)) {
     if (line.empty()) continue;
-    const auto t = split(line, '\t');
+    auto t = split(line, '\t');
     if (t.size() < 4) {
       std::cout << "R " << t[0] << " BADLINE\n";
       continue;
     }
-    std::vector<double> vals;
-    for (const auto& s : split(t[3], ',')) vals.push_back(std::strtod(s.c_str(), nullptr));
-    while (vals.size() < VARS.size()) vals.push_back(0.);
+    cases.push_back(t);
+  }
+  const std::size_t batch = 64;
+  std::size_t idx = 0;
+  while (idx < cases.size()) {
     int fds[2];
     if (pipe(fds) != 0) return 2;
     std::cout.flush();
     const pid_t pid = fork();
     if (pid == 0) {
       close(fds[0]);
-      // silence glibc's abort message of the real code
-      if (freopen("/dev/null", "w", stderr) == nullptr) {
+      if (freopen("/dev/null", "w", stderr) == nullptr) {  // silence glibc's abort message of the real code
       }
-      const auto r = run_case(t[1], t[2], vals);
-      if (write(fds[1], r.c_str(), r.size()) < 0) _exit(3);
+      for (std::size_t k = idx; k < std::min(cases.size(), idx + batch); ++k) {
+        const auto& t = cases[k];
+        std::vector<double> vals;
+        for (const auto& s : split(t[3], ',')) vals.push_back(std::strtod(s.c_str(), nullptr));
+        while (vals.size() < VARS.size()) vals.push_back(0.);
+        const auto r = "R " + t[0] + " " + run_case(t[1], t[2], vals) + "\n";
+        if (write(fds[1], r.c_str(), r.size()) < 0) _exit(3);
+      }
       close(fds[1]);
       _exit(0);
     }
     close(fds[1]);
     std::string res;
-    char b[256];
+    char b[4096];
     ssize_t n;
     while ((n = read(fds[0], b, sizeof(b))) > 0) res.append(b, static_cast<std::size_t>(n));
     close(fds[0]);
     int st = 0;
     waitpid(pid, &st, 0);
-    if (WIFSIGNALED(st)) {
-      std::cout << "R " << t[0] << " CRASH nan CRASH nan nan signal=" << WTERMSIG(st) << "\n";
-    } else if (res.empty()) {
-      std::cout << "R " << t[0] << " CRASH nan CRASH nan nan exit=" << WEXITSTATUS(st) << "\n";
-    } else {
-      std::cout << "R " << t[0] << " " << res << "\n";
+    // complete lines only
+    std::size_t done = 0;
+    std::size_t pos = 0;
+    while (true) {
+      const auto e = res.find('\n', pos);
+      if (e == std::string::npos) break;
+      std::cout << res.substr(pos, e - pos + 1);
+      pos = e + 1;
+      ++done;
+    }
+    idx += done;
+    const bool finished = (idx >= cases.size()) || (done == batch);
+    if (!finished || WIFSIGNALED(st)) {
+      if (idx < cases.size() && !(done == batch)) {
+        std::cout << "R " << cases[idx][0] << " CRASH nan CRASH nan nan ";
+        if (WIFSIGNALED(st)) {
+          std::cout << "signal=" << WTERMSIG(st) << "\n";
+        } else {
+          std::cout << "exit=" << WEXITSTATUS(st) << "\n";
+        }
+        ++idx;
+      }
     }
   }
   return 0;
